@@ -1282,7 +1282,7 @@ theorem revisionForIdent_prefix {h : Hist} {o : LoadOpts} {m : LMap} (hl : load 
     (ident : String) (hk : m.lookup ident = none)
     (x : Id) (hx : x ∈ m.ids) (hlen : x.length > 3) (hpre : startsWithL x ident = true)
     (huniq : ∀ y ∈ m.ids, y.length > 3 → startsWithL y ident = true → y = x) :
-    revisionForIdent m 12 ident none = .ok (some x) := by
+    ∀ n, revisionForIdent m (n + 1) ident none = .ok (some x) := by
   have L := loaded_of_load hl hu hd
   have hfresh := load_labelKeys_fresh hl
   -- the candidate list of the partial lookup is exactly `[x]`
@@ -1309,6 +1309,7 @@ theorem revisionForIdent_prefix {h : Hist} {o : LoadOpts} {m : LMap} (hl : load 
         cases h1 : decide (i.length > 3) <;> cases h2 : startsWithL i ident <;> simp_all
     rw [List.filter_congr hpred]
     exact filter_eq_singleton m.ids x hx L.ids_nodup
+  intro n
   unfold revisionForIdent
   simp only [bind, Except.bind, pure, Except.pure, hk, hcands, lookup_id m x hx]
 
@@ -1321,7 +1322,7 @@ theorem prefix_unique_resolves {h : Hist} {o : LoadOpts} {m : LMap} (hl : load h
     (x : Id) (hx : x ∈ m.ids) (hlen : x.length > 3) (hpre : startsWithL x ident = true)
     (huniq : ∀ y ∈ m.ids, y.length > 3 → startsWithL y ident = true → y = x) :
     getRevisions m ident = .ok [some x] := by
-  have hrev := revisionForIdent_prefix hl hu hd ident hk x hx hlen hpre huniq
+  have hrev := revisionForIdent_prefix hl hu hd ident hk x hx hlen hpre huniq 11
   unfold getRevisions resolveFuel
   simp only [resolveNumber_plain m 11 ident hp, bind, Except.bind, List.mapM_cons, List.mapM_nil, pure, Except.pure,
     hp.2.2.2.2]
@@ -1334,7 +1335,7 @@ theorem prefix_unique_resolves_single {h : Hist} {o : LoadOpts} {m : LMap} (hl :
     (x : Id) (hx : x ∈ m.ids) (hlen : x.length > 3) (hpre : startsWithL x ident = true)
     (huniq : ∀ y ∈ m.ids, y.length > 3 → startsWithL y ident = true → y = x) :
     getRevision m ident = .ok (some x) := by
-  have hrev := revisionForIdent_prefix hl hu hd ident hk x hx hlen hpre huniq
+  have hrev := revisionForIdent_prefix hl hu hd ident hk x hx hlen hpre huniq 11
   unfold getRevision resolveFuel
   simp [resolveNumber_plain m 11 ident hp, hrev, bind, Except.bind]
 
@@ -1473,5 +1474,12 @@ theorem downgrade_prefix_eq_full {h : Hist} {o : LoadOpts} {m : LMap} (hl : load
   unfold parseDowngradeTarget
   simp only [hm1, hm2, rpartitionAt_noat ident hp.1, rpartitionAt_noat x hpx.1,
     prefix_unique_resolves_single hl hu hd ident hp hk x hx hlen hpre huniq, (full_id m x hx hpx).2]
+
+/-! ### stamping a partial identifier is stamping the revision it names -/
+
+theorem resolveShares_plain_id (m : LMap) (x : Id) (hx : x ∈ m.ids) (hpx : Plain x) :
+    resolveShares m 12 x = .ok [x] := by
+  unfold resolveShares
+  simp [resolveNumber_plain m 10 x hpx, revisionForIdent_id m 10 x hx, bind, Except.bind, pure, Except.pure]
 
 end C16
